@@ -18,7 +18,7 @@ RULE = ("E1: columns A,B,C with domains (2,3,2)/(3,2,2); data = every multiset o
         "data sets, seeds {0,1}, max_iter 1..4: observed-data log-likelihood (brute force over the latent) non-decreasing; "
         "no latent => equals MLE. non-trivial = distinct (data, node, parents) with an unseen parent configuration, an "
         "unseen declared state, or >=2 parents")
-BOUNDS = {"quick": "multisets of <=3 rows on domain (2,3,2) (454) and <=2 rows on (3,2,2) (90), 5 covering DAGs, 6 estimator configs; model.fit on all 25 DAGs x 6 variants for ~20 data sets per domain; EM 20 data sets x 3 structures",
+BOUNDS = {"quick": "multisets of <=3 rows on domain (2,3,2) (454) and <=2 rows on (3,2,2) (90), 5 covering DAGs, 6 estimator configs; model.fit on all 25 DAGs x 6 variants for ~20 data sets per domain; EM 20 data sets x 5 structures x {2 seeds, explicit init_cpds} x max_iter 0..4 (latent cardinality 3 on every 4th)",
           "thorough": "multisets of <=4 rows; model.fit on all 25 DAGs for all data sets; EM latent cardinality 3"}
 EXHAUSTIVE = {"quick": True, "thorough": True}
 ASSUMPTIONS = ["plain str columns are not used (rejected by preprocess_data in the pinned pandas); int and categorical columns are",
@@ -46,9 +46,9 @@ def groups(tier, seed):
             out.append({"part": "fit", "dom": list(dom), "sets": [list(s) for s in pick[i:i + 5]]})
         out.append({"part": "update", "dom": list(dom), "sets": [list(s) for s in sets[5::max(1, len(sets) // 25)][:25]]})
     em_sets = [list(s) for k in (1, 2) for s in combinations_with_replacement(range(4), k)] + [[0, 1, 2], [0, 0, 3], [0, 3, 3, 1], [1, 2, 2, 2], [0, 1, 2, 3], [3, 3, 0, 0]]
-    for s in em_sets:
+    for i, s in enumerate(em_sets):
         out.append({"part": "em", "set": s, "lcard": 2})
-        if tier == "thorough":
+        if tier == "thorough" or i % 4 == seed % 4:
             out.append({"part": "em", "set": s, "lcard": 3})
     return out
 
@@ -401,7 +401,25 @@ def _update(st, dom, idxs):
 
 
 # ------------------------------------------------------------------ EM
-EM_STRUCT = {"L-root": [("L", "A"), ("L", "B")], "L-mid": [("A", "L"), ("L", "B")], "L-root+AB": [("L", "A"), ("L", "B"), ("A", "B")]}
+EM_STRUCT = {"L-root": [("L", "A"), ("L", "B")], "L-mid": [("A", "L"), ("L", "B")], "L-root+AB": [("L", "A"), ("L", "B"), ("A", "B")],
+             "L-leaf": [("A", "L"), ("B", "L"), ("A", "B")], "L-mid+AB": [("A", "L"), ("L", "B"), ("A", "B")]}
+
+
+def _em_init(model, lcard):
+    """explicit, deterministic, strictly positive initial CPDs for the latent variable and its children"""
+    from pgmpy.factors.discrete import TabularCPD
+
+    out = {}
+    card = {"A": 2, "B": 2, "L": lcard}
+    for v in ["L"] + sorted(model.successors("L")):
+        pa = sorted(model.predecessors(v))
+        ncol = int(np.prod([card[p] for p in pa])) if pa else 1
+        raw = np.array([[1 + ((3 * i + 2 * j + len(v) + (v == "B")) % 5) for j in range(ncol)] for i in range(card[v])], dtype=float)
+        vals = raw / raw.sum(axis=0, keepdims=True)
+        out[v] = TabularCPD(v, card[v], vals, evidence=pa or None, evidence_card=[card[p] for p in pa] or None,
+                            state_names={x: list(range(card[x])) for x in [v] + pa})
+    return out
+
 
 
 def _em(st, g):
@@ -416,7 +434,7 @@ def _em(st, g):
     lcard = g["lcard"]
     st.states += 1
     for sname, edges in EM_STRUCT.items():
-        for seed in (0, 1):
+        for seed in (0, 1, "init"):
             lls = []
             for k in (1, 2, 3, 4):
                 case = {"part": "em", "g": g, "site": "EM", "config": sname, "order": seed, "nprev": k}
@@ -424,38 +442,48 @@ def _em(st, g):
                 st.evals += 1
                 st.transitions += 1
                 try:
-                    cpds = ExpectationMaximization(model, df).get_parameters(latent_card={"L": lcard}, max_iter=k, seed=seed, n_jobs=1, show_progress=False)
+                    kw = {"seed": seed} if seed != "init" else {"init_cpds": _em_init(model, lcard)}
+                    cpds = ExpectationMaximization(model, df).get_parameters(latent_card={"L": lcard}, max_iter=k, n_jobs=1, show_progress=False, **kw)
                 except Exception as ex:
                     st.violation("EM", "exception", case, repr(ex)[:300])
                     lls = None
                     break
                 # observed-data log-likelihood: brute-force sum over the latent
                 by = {c.variable: c for c in cpds}
-                ll = 0.0
                 bad = None
                 for c in cpds:
                     if not c.is_valid_cpd():
                         bad = f"CPD of {c.variable} is not normalised"
-                for a, b in data:
-                    tot = 0.0
-                    for l in range(lcard):
-                        asg = {"A": a, "B": b, "L": l}
-                        p = 1.0
-                        for c in cpds:
-                            idx = tuple(c.name_to_no[v][asg[v]] for v in c.variables)
-                            p *= float(np.asarray(c.values)[idx])
-                        tot += p
-                    ll += math.log(tot) if tot > 0 else -1e9
+
+                def loglik(cs):
+                    ll = 0.0
+                    for a, b in data:
+                        tot = 0.0
+                        for l in range(lcard):
+                            asg = {"A": a, "B": b, "L": l}
+                            p = 1.0
+                            for c in cs:
+                                idx = tuple(c.name_to_no[v][asg[v]] for v in c.variables)
+                                p *= float(np.asarray(c.values)[idx])
+                            tot += p
+                        ll += math.log(tot) if tot > 0 else -1e9
+                    return ll
                 st.compared += 1
                 if bad or set(by) != {"A", "B", "L"}:
                     st.violation("EM", "invalid-parameters", case, bad or sorted(by), None)
-                lls.append(ll)
+                    lls = None
+                    break
+                if k == 1 and seed == "init":
+                    # the chain starts at the given initial CPDs (the CPDs that do not touch the latent are fixed by the data)
+                    init = kw["init_cpds"]
+                    lls.append(loglik(list(init.values()) + [c for c in cpds if c.variable not in init]))
+                lls.append(loglik(cpds))
             if lls:
                 st.nt((tuple(g["set"]), sname, seed))
                 for i in range(1, len(lls)):
                     st.compared += 1
                     if lls[i] < lls[i - 1] - 1e-7:
-                        st.violation("EM", "likelihood-decreased", {"part": "em", "g": g, "site": "EM", "config": sname, "order": seed, "nprev": i + 1},
+                        st.violation("EM", "likelihood-decreased", {"part": "em", "g": g, "site": "EM", "config": sname, "order": seed, "nprev": i},
                                      lls, None)
                         break
                 st.outcome(round(lls[-1], 6))
